@@ -298,12 +298,24 @@ impl<'a> BinEncoder<'a> {
 //%fn crates/proto/src/serialize/binary/encoder.rs :: impl<'a> BinEncoder<'a> :: get_label_pointer
 //%contract
         requires self.wf_buf(), start < self.offset, end <= self.bytes().len(), start <= end,
-        ensures true
+        ensures
+            // C04 ("a name of arbitrary octets is unchanged, including letter case, by wire encoding and decoding, compressed
+            // or not"): a pointer is offered only to a compression candidate recorded with EXACTLY the octets of this
+            // suffix -- the same length octets, the same label octets, the same letter case
+            r matches Some(loc) ==> exists|k: int| 0 <= k < self.name_pointers@.len() && (#[trigger] self.name_pointers@[k]).0 == loc as int
+                && self.name_pointers@[k].1@ == self.bytes().subrange(start as int, end as int),
 //%after "for (match_start, matcher) in"
                 vp_it:
 //%after "for (match_start, matcher) in &self.name_pointers"
-            invariant forall|j: int| 0 <= j < vp_it.iter.remaining().len() ==> (#[trigger] vp_it.iter.remaining()[j]).0 <= 0xFFFF
-//%sub1 "matcher.as_slice() == search" => "vp_slice_eq(matcher.as_slice(), search)" # R-shim: PartialEq for [u8]
+            invariant forall|j: int| 0 <= j < vp_it.iter.remaining().len() ==> (#[trigger] vp_it.iter.remaining()[j]).0 <= 0xFFFF,
+                search@ == self.bytes().subrange(start as int, end as int),
+                vp_it.snapshot@.remaining().len() == self.name_pointers@.len(), 0 <= vp_it.index@ <= self.name_pointers@.len(),
+                forall|j: int| 0 <= j < self.name_pointers@.len() ==> *(#[trigger] vp_it.snapshot@.remaining()[j]) == self.name_pointers@[j],
+//%sub? "matcher.as_slice() == search" => "vp_slice_eq(matcher.as_slice(), search)" # R-shim: PartialEq for [u8]
+//%sub? "matcher.as_slice().eq_ignore_ascii_case(search)" => "vp_slice_eq_ignore_case(matcher.as_slice(), search)" # R-shim: <[u8]>::eq_ignore_ascii_case (so that such a comparison is judged against the contract, not lost)
+//%sub? "matcher.eq_ignore_ascii_case(search)" => "vp_slice_eq_ignore_case(matcher.as_slice(), search)" # R-shim: as above, through Vec's deref
+//%before "return Some(*match_start as u16);"
+                assert(*match_start == self.name_pointers@[vp_it.index@ as int].0 && matcher@ == self.name_pointers@[vp_it.index@ as int].1@);
 //%sub1 "assert!(match_start <= &(u16::MAX as usize));" => "assert(*match_start <= u16::MAX as usize);" # R-ann: assert! through references -> same condition on values (proof obligation)
 //%end
 
@@ -430,6 +442,11 @@ pub fn vp_buf_slice<'b>(m: &'b MaximalBuf<'_>) -> (r: &'b [u8])
 pub fn vp_slice_eq(a: &[u8], b: &[u8]) -> (r: bool)
     ensures r == (a@ =~= b@)
 { a == b }
+pub open spec fn vp_lower(b: u8) -> u8 { if 0x41 <= b <= 0x5A { (b + 32) as u8 } else { b } }
+#[verifier::external_body]
+pub fn vp_slice_eq_ignore_case(a: &[u8], b: &[u8]) -> (r: bool)
+    ensures r == (a@.len() == b@.len() && forall|i: int| 0 <= i < a@.len() ==> vp_lower(a@[i]) == vp_lower(b@[i]))
+{ a.eq_ignore_ascii_case(b) }
 
 //%include forloop.rs
 
